@@ -47,6 +47,7 @@ pub struct State {
     pub listener: Arc<UdpSocket>,
     pub client: StdUdp,
     pub client_addr: SocketAddr,
+    pub old_clients: Vec<StdUdp>,
     pub rx: StdUdp,
     pub rx_port: u16,
     pub last_selected: Option<usize>,
@@ -167,6 +168,7 @@ impl Shell {
                 listener,
                 client,
                 client_addr,
+                old_clients: Vec::new(),
                 rx,
                 rx_port,
                 last_selected: None,
@@ -460,6 +462,29 @@ impl Shell {
             }
         }
         out
+    }
+
+    /// The SRT client goes away and comes back from a new source port (an encoder restart): a new harness socket
+    /// takes its place; the old one is kept open so that what is still sent to it can be counted.
+    pub fn switch_client(&mut self) {
+        let client = StdUdp::bind("127.0.0.1:0").expect("bind client");
+        client.set_nonblocking(true).unwrap();
+        big_rcvbuf(&client);
+        self.st.client_addr = client.local_addr().unwrap();
+        let old = std::mem::replace(&mut self.st.client, client);
+        self.st.old_clients.push(old);
+    }
+
+    /// Datagrams that arrived on the sockets of earlier client incarnations since the last call.
+    pub fn drain_old_clients(&mut self) -> usize {
+        let mut k = 0;
+        let mut buf = [0u8; 2048];
+        for c in &self.st.old_clients {
+            while c.recv_from(&mut buf).is_ok() {
+                k += 1;
+            }
+        }
+        k
     }
 
     /// Everything delivered to the SRT client since the last drain.
